@@ -33,7 +33,7 @@ CASE_TIMEOUT = 30.0
 MOD = __name__
 META = {
     "rule": "Hypothesis rule-based state machine: histories of <=30 (quick) / <=50 (thorough) operations parse / & / | / reparse / "
-    "variant over 31 base atoms x 4 spellings; every step is a probe compared warm vs cold. Non-trivial = a probe whose "
+    "variant over 34 base atoms x 4 spellings; every step is a probe compared warm vs cold. Non-trivial = a probe whose "
     "history contains, before it, an operation using one of the probe's atoms in a different spelling (equal but differently "
     "built operand); distinct by (history prefix, probe).",
     "assumptions": [
@@ -56,6 +56,8 @@ BASE = [
     ("python_full_version", ">", "3.10"),
     # epoch literals: valid PEP 440, take their own path through the python_version translation
     ("python_version", ">=", "1!3.8"), ("python_version", "!=", "1!3.9"),
+    # < V or > V merges to != V: a computed union whose text depends on how V was spelled
+    ("python_version", ">", "3.10"), ("platform_release", "<", "5.4"), ("platform_release", ">", "5.4"),
 ]
 REFL = M.REFLECT
 # atom pools of one history: related atoms (same variable, bounds one ~= step apart, X.Y / X.Y.0 twins) so that
@@ -66,6 +68,7 @@ FAMILIES = [
     [22, 23, 24, 25], [26, 27, 0, 25], [22, 23, 25, 0], [24, 22, 23, 1],
     [9, 28, 7, 5], [9, 21, 7, 4], [6, 2, 10, 5],
     [29, 30, 23, 2],
+    [1, 31, 17, 5], [32, 33, 13],
 ]
 
 
@@ -312,7 +315,7 @@ def tasks(tier, seed):
     steps = 30 if tier == "quick" else 50
     t = [(MOD, "machines", (n // shards, seed * 1_000_003 + i, steps)) for i in range(shards)]
     t += [(MOD, "hashseed", (f, 4 if tier == "quick" else 8)) for f in ([0, 16, 12] if tier == "quick" else range(len(FAMILIES)))]
-    fams = range(len(FAMILIES)) if tier == "thorough" else [0, 2, 7, 12, 13, 15, 19]
+    fams = range(len(FAMILIES)) if tier == "thorough" else [0, 2, 7, 12, 13, 15, 19, 20]
     t += [(MOD, "two_step", (f, sh, 4)) for f in fams for sh in range(4)]
     if tier == "thorough":
         t += [(MOD, "fresh", (seed * 77 + i, 20)) for i in range(16)]
@@ -336,6 +339,8 @@ def two_step(acc, fam_idx, shard, nshards):
 
     hist = [[op, leaf(x), leaf(y)] for op in ("and", "or") for x, y in itertools.product(atoms, repeat=2)]
     probes = [[op, leaf(x), leaf(y)] for op in ("and", "or") for x, y in itertools.product(atoms, repeat=2)]
+    # the same pairs in the other spelling of their literals (X.Y / X.Y.0): equal operands, different text
+    probes += [[op, ["parse", x, 2], ["parse", y, 2]] for op in ("and", "or") for x, y in itertools.product(atoms, repeat=2)]
     probes += [[op2, [op1, leaf(x), leaf(y)], leaf(z)] for op1 in ("and", "or") for op2 in ("and", "or") for x, y, z in itertools.product(atoms, repeat=3)]
     cold_obs = {}
     for pi, p in enumerate(probes):
@@ -423,13 +428,22 @@ def hashseed(acc, fam_idx, nseeds):
     acc.sample({"family": fam_idx, "recipes": len(recipes), "seeds": nseeds, "example": render_tree(recipes[0][1])}, layer)
 
 
+def _shift_tree(t, shift):
+    """The tree with the spelling shift baked into its atoms (ops carry no shift of their own)."""
+    if not shift:
+        return t
+    if t[0] == "atom":
+        return ["atom", t[1], (t[2] + shift) % 4]
+    return [t[0], [_shift_tree(c, shift) for c in t[1]]]
+
+
 def _recipe_to_ops(r, base=0):
     """Flatten a recipe (over variant-0 parses) into an op list whose indices start at `base`."""
     out = []
 
     def go(x):
         if x[0] == "parse":
-            out.append(["parse", x[1]])
+            out.append(["parse", _shift_tree(x[1], x[2] if len(x) > 2 else 0)])
             return base + len(out) - 1
         i, j = go(x[1]), go(x[2])
         out.append([x[0], i, j])
